@@ -140,3 +140,25 @@ register(
     assumptions=ASSUME_STRUCT + ["tree depth <= universe size (<= 18), far below Python's pickling recursion limit"],
     components={"real": REAL + "; pickle/copy from the standard library", "stub": "none", "harness": HARNESS},
 )
+register(
+    "C08",
+    "rglob",
+    quick=40000,
+    thorough=1000000,
+    level="exploration",
+    title="Resolver.glob returns exactly the nodes a wildcard pattern denotes; the shared pattern cache is unobservable",
+    rule="a run = a history of 5..40 operations: glob calls by a pool of 2-5 resolvers (ignorecase x relax) sharing the "
+    "class-wide pattern cache, over a pattern pool sized around the run's _MAXCACHE in {1,2,3,5,20}, interleaved with "
+    "renames, re-parenting and knob changes; names contain regex metacharacters, case variants, spaces, newline, the empty "
+    "string and the other class's separator.  A case = one glob call judged against the stateless reference (relaxed: set, "
+    "order, duplicates; strict: same list or a justified ResolverError; agreement with get on wildcard-free paths). "
+    "Signature = (pattern component shape, ignorecase, relax, outcome class, result size class, dead-end flag, "
+    "sibling-unique flag); distinct_nontrivial counts distinct signatures.",
+    assumptions=[
+        "ASCII names whenever an ignorecase resolver is in the pool (str.upper() and re.IGNORECASE disagree on a few non-ASCII characters and the statement does not say which is meant)",
+        "strict-mode calls only on trees whose sibling names are unique (the statement's quantifier); otherwise the call is issued relaxed",
+        "every run starts with an empty pattern cache (a fresh process); cache states are then created by the run's own call history",
+        "seeded sampling: a clean batch is evidence, not proof",
+    ],
+    components={"real": REAL, "stub": "none", "harness": "Node subclasses with other separators; the reference glob is harness code"},
+)
